@@ -41,6 +41,7 @@ def run_campaign(chk, b, profiles, ncases, facets, sig_prefix, nontrivial_fn, ru
         stats["generator_discards"] += r.get("discarded", 0)
         stats["repositories_in_promisor_layout"] += 1 if r.get("promisor_layout") else 0
         stats["runs_with_a_stalled_or_slow_stderr_reader"] += r.get("slow_stderr_runs", 0)
+        stats["runs_with_children_delivering_in_one_burst"] += r.get("burst_runs", 0)
         stats["runs_with_stalling_children"] += r.get("stalled_runs", 0)
         stats["runs_with_for_each_ref_output_cut_mid_line"] += r.get("cut_ref_runs", 0)
         for s in r["samples"]:
